@@ -83,7 +83,7 @@ RULE = ("thorough, exhaustive: FillRequest.__init__ for every subset of {run,fil
         "request x bufsize 1..5 x buffer mode x reset x yield_on_remainder x flows 0..8; "
         "fill/request: EVERY subset of request points (before each fill, closing request always) of flows 0..8 for kinds "
         "fill-compute/fill-request/run+fill-request x bufsize 1..5 x buffer_input/buffer_output x reset x "
-        "yield_on_remainder x 1-2 results x state-changing request; Split bufsize in {1..9,1000,None} around a FillRequest "
+        "yield_on_remainder (1-result element; 2 results / state-changing request: flows 0..7, length 8 sampled); Split bufsize in {1..9,1000,None} around a FillRequest "
         "branch given as element / tuple / FillRequestSeq, flows 0..8; every history over {fill, request(), reset()} of length "
         "<= 5 x bufsize 1..4 x modes x flags x {never raising, LenaStopFill from value 2 on (stored or not), from value 4 on}; "
         "Split (bufsize 1..5,7,None) and _run_fill_compute around an element that stops at value 1/3/5, flows 0..8; plus "
@@ -1043,6 +1043,8 @@ def gen_cases(ctx):
         if cfg[1] == 2 and not thorough:
             continue
         for ops in hist:
+            if cfg[1] == 2 and len(ops) > 4:
+                continue
             for stop, stores in _STOPS:
                 if stop is not None and stop >= sum(1 for o in ops if isinstance(o, int)):
                     continue
@@ -1089,15 +1091,16 @@ def gen_cases(ctx):
                     for n in range(1, 6):
                         for buf in ("bi", "bo"):
                             for yor in (False, True):
-                                if thorough or (plain and L <= 6):
+                                if (thorough and (plain or L <= 7)) or (plain and L <= 6):
                                     for mask in range(1 << L):
                                         c = _base(kind, k, mut, hr, n, buf, reset, yor)
                                         c.update(op="ops", n=L, mask=mask)
                                         yield c
                                 elif L >= 3:
                                     rest.append((kind, k, mut, hr, reset, n, buf, yor, L))
-    if not thorough:
-        for _ in range(12000):
+    # (thorough: `rest` = flows of length 8 for the 2-result / state-changing elements)
+    if rest:
+        for _ in range(20000 if thorough else 12000):
             kind, k, mut, hr, reset, n, buf, yor, L = rng.choice(rest)
             c = _base(kind, k, mut, hr, n, buf, reset, yor)
             c.update(op="ops", n=L, mask=rng.randrange(1 << L))
